@@ -57,6 +57,15 @@ def plan(plan, tier, seed):
         plan.verus.append(VerusUnit("c17_args", unit, {"bind_arguments_and_run": n5}, ["canary_args"]))
     except AnchorLost as e:
         plan.anchor_errors.append((n5, str(e)))
+    n7 = "C17.verus.fsm_argument_kind_matches.kinds_equal_up_to_references"
+    plan.ob(n7, "verus", "proved", functions=["fsm_argument_kind_matches (whole body, with its nested helper strip_references)"],
+            what="an argument kind fits a declared input kind iff, with references stripped on both sides, the kinds are equal -- except that a matrix kind declared WITHOUT dimensions accepts a matrix of any shape with an equal element kind; for every pair of kind trees")
+    try:
+        unit = vlib.verus_file([vC17.KIND_MODEL, vC17.kind_fn(text), vlib.verus_canary("canary_kind", "x: u64", [])])
+        plan.verus.append(VerusUnit("c17_kind", unit, {"fsm_argument_kind_matches": n7, "strip_references": n7}, ["canary_kind"]))
+    except AnchorLost as e:
+        plan.anchor_errors.append((n7, str(e)))
+    plan.dropped.append(vC17.kind_fn.__doc__.strip())
     plan.dropped.append(vC17.arg_fn.__doc__.strip())
     plan.dropped.append(vC17.coverage_fn.__doc__.strip())
     plan.dropped.append(vC17.target_fn.__doc__.strip())
@@ -70,5 +79,5 @@ def plan(plan, tier, seed):
         "termination: the outer loop is `for step in 0..p.max_steps`, each inner loop ranges over a finite list (Verus checks the for-loops' implicit measures); evaluators are assumed to return",
     ]
     plan.assumptions += ["execute_fsm_pipe fragment: kind resolution of an annotation, fsm_argument_kind_matches, detach_value, pattern_to_value, validate_fsm_state_coverage and execute_fsm_pipe_impl are uninterpreted (contracts/C17/argmodel.rs); `fsm`, `input_decls`, `args` (looked up / evaluated above the fragment) are parameters"]
-    plan.undecided_clauses += ["C17: of execute_fsm_pipe the lookup of the machine and of its specification and the evaluation of the argument expressions (above the fragment); fsm_argument_kind_matches itself; validate_fsm_state_coverage's collection of the state names from the arms, the declared output kind; the contracts of execute_fsm_pipe_impl (apply_transitions uninterpreted) and of apply_transitions are proved separately and not composed mechanically"]
+    plan.undecided_clauses += ["C17: of execute_fsm_pipe the lookup of the machine and of its specification and the evaluation of the argument expressions (above the fragment); validate_fsm_state_coverage's collection of the state names from the arms, the declared output kind; the contracts of execute_fsm_pipe_impl (apply_transitions uninterpreted) and of apply_transitions are proved separately and not composed mechanically"]
     plan.level = "proof"
